@@ -274,6 +274,7 @@ theorem clean_apply {N : Nat} {s : State} (h : Clean s) (e : Ev) (he : e.enabled
   | throw i x => simp [Ev.orderly] at ho
   | interrupt i x => simp [Ev.orderly] at ho
   | reinsert i ps => simp [Ev.orderly] at ho
+  | acquireFails k => simp [Ev.orderly] at ho
   | setEv ev =>
     intro j
     simp only [State.apply, State.doSetEv]
